@@ -476,7 +476,11 @@ def write_evidence(sess, prop, tier, failed, known, undecided=None, wall=0.0, ka
         # no verdict, hence no proof-level evidence: say so instead of reporting zero discharged obligations as a proof
         ev["level"] = "other"
         ev["coverage"]["explanation"] = "this run reached no verdict (exit 2), nothing was proved or refuted: " + str(undecided)
-    json.dump(ev, open(os.path.join(EVID, prop + ".json"), "w"), indent=1)
+    # /verif/evidence describes the tree at /repo; runs on any other tree (regressions, self-tests) write elsewhere
+    repo_dir = os.path.realpath(getattr(sess, "repo", "/repo")) if sess else "/repo"
+    out_dir = EVID if repo_dir == os.path.realpath("/repo") else os.path.join(CACHE, "evidence_other_trees")
+    os.makedirs(out_dir, exist_ok=True)
+    json.dump(ev, open(os.path.join(out_dir, prop + ".json"), "w"), indent=1)
 
 
 ASSUMPTIONS = [
